@@ -37,6 +37,7 @@ PROVED (all states, rule tables, receivers, fuel):
 -/
 import PyOak.Props.LegacyTrace
 import PyOak.Props.C18
+import PyOak.Props.C18Queries   -- + C18Ranked, C18Acyclic (acyclicity of admissible histories, upward queries)
 namespace PyOak.Legacy.C18T
 open PyOak PyOak.Legacy LState PyOak.Legacy.C18
 
